@@ -187,6 +187,9 @@ func cmdRun(args []string) int {
 	if *timeout > 0 {
 		cfg.TimeoutMs = *timeout
 	}
+	if *tier == "thorough" {
+		checkIval = true // engine self-check: every derived interval is confirmed by the solver
+	}
 	cfg.Fallbacks = []string{"cvc5", "z3-new"}
 	cfg.FallbackMs = 30000
 	if *tier == "thorough" {
